@@ -357,6 +357,11 @@ func loadCached(repo, goos string) (*core.Prog, error) {
 	if err == nil {
 		progCache[k] = p
 		inlineNotes[k] = append([]string{}, core.InlineLog[logStart:]...)
+		for _, l := range inlineNotes[k] {
+			if strings.HasPrefix(l, "helper expansion abandoned") {
+				fmt.Println("NOTE", strings.SplitN(l, "\n", 2)[0], "(the tree is analysed as written)")
+			}
+		}
 	}
 	return p, err
 }
